@@ -4,6 +4,7 @@ mod crypto;
 mod gen;
 mod interpose;
 mod known;
+mod observer;
 mod oracles;
 mod prng;
 mod refmls;
